@@ -81,6 +81,14 @@ void highCase(Ctx &c, Rng &g) {
     // ---- C04 primitive operators
     spl("C04", "Dx<1>", Dx<1>{} * s, model::dderiv(ds, 1), absDeriv(as, 1));
     spl("C04", "Dx<3>", Dx<3>{} * s, model::dderiv(ds, 3), absDeriv(as, 3));
+    spl("C04", "Dx<half>", Dx<(o + 1) / 2>{} * s, model::dderiv(ds, (o + 1) / 2),
+        absDeriv(as, (o + 1) / 2));
+    spl("C04", "Dx<order-1>", Dx<o - 1>{} * s, model::dderiv(ds, o - 1),
+        absDeriv(as, o - 1));
+    spl("C04", "Dx<order>", Dx<o>{} * s, model::dderiv(ds, o), absDeriv(as, o));
+    spl("C04", "Dx<order+1>", Dx<o + 1>{} * s, model::dderiv(ds, o + 1),
+        absDeriv(as, o + 1));
+    spl("C04", "X<5>", X<5>{} * s, model::dmulx(ds, 5), absMulX(as, 5, pts));
     spl("C04", "X<1>", X<1>{} * s, model::dmulx(ds, 1), absMulX(as, 1, pts));
     spl("C04", "X<2>", X<2>{} * s, model::dmulx(ds, 2), absMulX(as, 2, pts));
     // ---- C03 arithmetic
@@ -125,6 +133,8 @@ void highCase(Ctx &c, Rng &g) {
     sca("C07", "linear-X2", LinearForm{X<2>{}}(s), ex, S);
     lin(model::dderiv(ds, 1), absDeriv(as, 1), ws.start, ws.end, ex, S);
     sca("C07", "linear-Dx1", LinearForm{Dx<1>{}}(s), ex, S);
+    lin(model::dderiv(ds, o - 2), absDeriv(as, o - 2), ws.start, ws.end, ex, S);
+    sca("C07", "linear-Dx<order-2>", LinearForm{Dx<o - 2>{}}(s), ex, S);
     // ---- C06 bilinear forms
     auto bil = [&](const Den &l, const AbsM &la, const Den &r, const AbsM &ra,
                    size_t k0, size_t k1, R &ex2, R &S2) {
